@@ -393,8 +393,89 @@ let val_mode cases out =
   done with End_of_file -> ());
   close_in ic; close_out oc
 
+(* ---------- spec mode: the Coq specification's client applied to real server output ----------
+   input lines:  <id>|<lim>|<kinds>|<hex of all server bytes>   kinds = comma list of
+   g (greeting) a (auth reply) q (text response) x (binary response) p (prepare reply) o (OK/ERR) f (field list)
+   output: one line per reply  <id>|<kind>|<canonical decoding>  or <id>|bad|<where> *)
+let cell_str = function CNull -> "N" | CText b -> "T" ^ hex_of_bytes b
+let binval_str = function
+  | BNull -> "N" | BInt z -> "i" ^ dec_of_z z | BF32 b -> "f" ^ hex_of_n 8 b | BF64 b -> "d" ^ hex_of_n 16 b
+  | BBytes b -> "b" ^ hex_of_bytes b
+  | BDate (y, mo, d, h, mi, s, us) -> Printf.sprintf "D%s:%s:%s:%s:%s:%s:%s" (dec_of_n y) (dec_of_n mo) (dec_of_n d) (dec_of_n h) (dec_of_n mi) (dec_of_n s) (dec_of_n us)
+  | BTime (neg, d, h, mi, s, us) -> Printf.sprintf "t%d:%s:%s:%s:%s:%s" (if neg then 1 else 0) (dec_of_n d) (dec_of_n h) (dec_of_n mi) (dec_of_n s) (dec_of_n us)
+let col_str (c : column) = Printf.sprintf "%s/%s/%s/%s" (hex_of_bytes c.c_table) (hex_of_bytes c.c_name) (dec_of_n c.c_type) (dec_of_n c.c_flags)
+let row_str = function
+  | RText cs -> String.concat "," (List.map cell_str cs)
+  | RBin vs -> String.concat "," (List.map binval_str vs)
+let unit_str = function
+  | UOk (r, i) -> Printf.sprintf "ok %s %s" (dec_of_n r) (dec_of_n i)
+  | UErr (c, st, m) -> Printf.sprintf "err %s %s %s" (dec_of_n c) (hex_of_bytes st) (hex_of_bytes m)
+  | URows (cols, rows) -> Printf.sprintf "rows [%s] [%s]" (String.concat ";" (List.map col_str cols)) (String.concat ";" (List.map row_str rows))
+  | URowsErr (cols, rows, c, st, m) -> Printf.sprintf "rows_err [%s] [%s] %s %s %s" (String.concat ";" (List.map col_str cols)) (String.concat ";" (List.map row_str rows)) (dec_of_n c) (hex_of_bytes st) (hex_of_bytes m)
+
+let spec_mode input out =
+  let ic = open_in input in
+  let oc = open_out out in
+  (try while true do
+    let l = input_line ic in
+    match String.split_on_char '|' l with
+    | [id; lim; kinds; hex] ->
+      let bytes = bytes_of_hexspec (if hex = "" then "-" else hex) in
+      (match spec_deframe (n_of_int (int_of_string lim)) bytes with
+       | None -> Printf.fprintf oc "%s|bad|framing\n" id
+       | Some msgs ->
+         let seqs = List.map (fun ((first, last), _) -> (int_of_n first, int_of_n last)) msgs in
+         Printf.fprintf oc "%s|seqs|%s\n" id (String.concat "," (List.map (fun (a, b) -> Printf.sprintf "%d-%d" a b) seqs));
+         let payloads = ref (List.map snd msgs) in
+         let take1 () = match !payloads with [] -> None | m :: r -> payloads := r; Some m in
+         (try
+           List.iter (fun k ->
+             match k with
+             | "" -> ()
+             | "g" -> (match take1 () with
+                 | Some m -> (match spec_greeting m with
+                     | Some g -> Printf.fprintf oc "%s|g|%s %s\n" id (dec_of_n g.g_proto) (dec_of_n g.g_caps)
+                     | None -> Printf.fprintf oc "%s|bad|greeting\n" id; raise Exit)
+                 | None -> Printf.fprintf oc "%s|bad|missing greeting\n" id; raise Exit)
+             | "a" | "o" -> (match take1 () with
+                 | Some m -> (match spec_ok m, spec_err m with
+                     | Some ok, _ -> Printf.fprintf oc "%s|%s|ok %s %s %s\n" id k (dec_of_n ok.ok_rows) (dec_of_n ok.ok_id) (dec_of_n ok.ok_status)
+                     | None, Some e -> Printf.fprintf oc "%s|%s|err %s %s %s\n" id k (dec_of_n e.err_code) (hex_of_bytes e.err_state) (hex_of_bytes e.err_msg)
+                     | None, None -> Printf.fprintf oc "%s|bad|ok/err expected\n" id; raise Exit)
+                 | None -> Printf.fprintf oc "%s|bad|missing reply\n" id; raise Exit)
+             | "q" | "x" ->
+                 (match spec_response (nat_of_int (List.length !payloads + 1)) (k = "x") !payloads with
+                  | Some (units, rest) -> payloads := rest;
+                      Printf.fprintf oc "%s|%s|%s\n" id k (String.concat " ## " (List.map unit_str units))
+                  | None -> Printf.fprintf oc "%s|bad|response\n" id; raise Exit)
+             | "p" ->
+                 (match !payloads with
+                  | m :: _ when (match spec_err m with Some _ -> true | None -> false) ->
+                      (match spec_err m with Some e -> ignore (take1 ()); Printf.fprintf oc "%s|p|err %s %s %s\n" id (dec_of_n e.err_code) (hex_of_bytes e.err_state) (hex_of_bytes e.err_msg) | None -> ())
+                  | _ ->
+                    (match spec_prepare_ok !payloads with
+                     | Some (pk, rest) -> payloads := rest;
+                         Printf.fprintf oc "%s|p|prep %s [%s] [%s]\n" id (dec_of_n pk.pk_id)
+                           (String.concat ";" (List.map col_str pk.pk_params)) (String.concat ";" (List.map col_str pk.pk_cols))
+                     | None -> Printf.fprintf oc "%s|bad|prepare reply\n" id; raise Exit))
+             | "f" ->
+                 let rec go acc = (match take1 () with
+                   | None -> Printf.fprintf oc "%s|bad|field list\n" id; raise Exit
+                   | Some m -> (match spec_eof m with
+                       | Some _ when List.length m < 9 -> List.rev acc
+                       | _ -> (match spec_coldef m with Some c -> go (c :: acc) | None -> Printf.fprintf oc "%s|bad|field list\n" id; raise Exit))) in
+                 let cs = go [] in
+                 Printf.fprintf oc "%s|f|[%s]\n" id (String.concat ";" (List.map col_str cs))
+             | s -> fail_parse ("bad kind " ^ s)) (String.split_on_char ',' kinds);
+           Printf.fprintf oc "%s|left|%d\n" id (List.length !payloads)
+         with Exit -> ()))
+    | _ -> ()
+  done with End_of_file -> ());
+  close_in ic; close_out oc
+
 let () =
   match Array.to_list Sys.argv with
+  | [_; "spec"; input; out] -> spec_mode input out
   | [_; "conn"; cases; aux; out] -> load_aux aux; conn_mode cases out;
       if !missing_aux > 0 then Printf.eprintf "driver: %d float lookups missing from aux\n" !missing_aux
   | [_; "tls"; cases; aux; out] -> load_aux aux; conn_mode ~tlsmode:true cases out
